@@ -14,6 +14,15 @@ use serde_json::json;
 /// One totality evaluation: no panic, parser agreement, step budget. Returns ticks when Ok.
 pub fn total(ctx: &mut Ctx, id: &str, src: &str, c: &Cfg, range: Range, family: &str) -> Option<u64> {
     let in_ok = fmt::parses(src, c);
+    // depth ramps and extreme configurations also run on the stack a CLI worker thread has
+    if family == "depth-ramp" || family == "extreme-config" {
+        let o2 = ctx.eval_small_stack(&format!("{id}#2MiB"), src, c, range);
+        if let Err(FmtErr::Panic(m)) = &o2.result {
+            let mut v = case_json(id, src, c, range);
+            v["family"] = json!(family);
+            ctx.finding("panic", &fmt::panic_signature(m), &format!("format_code panicked on a 2 MiB stack: {m}"), v);
+        }
+    }
     let out = ctx.eval(id, src, c, range, false);
     ctx.count(&format!("family.{family}"));
     let case = || {
